@@ -10,7 +10,8 @@ ids = [p["id"] for p in props]
 
 TB = ("Trusted: Lean 4.33 kernel (axioms propext, Classical.choice, Quot.sound only), the Lean compiler for the driver, "
       "the harness/comparator (differential correspondence, testing), the facts extractor; modelled not verified: "
-      "Go regexp, publicsuffix, netip, gzip, the Go runtime (DESIGN.md section 3).")
+      "publicsuffix and netip (oracle tables), gzip, the Go runtime; Go's regexp engine is modelled (UF/Model/Regex*.lean) and validated "
+      "differentially against the real engine (DESIGN.md sections 3 and 8).")
 
 # property -> (claimed?, level category, text, technique, note)
 TECH = "Lean 4 theorems over a hand-written executable model + differential correspondence (Go vs model vs spec) + regenerated facts"
@@ -117,6 +118,21 @@ CLAIMS = {
             "the 16 KiB window, near-markers.", TECH, TB),
 }
 
+
+# composition results of the second round, appended to the claim texts
+EXTRA = {
+    "C01": "Composition (Props/C01Compose): c01_storage / c01_storage_hash state the same FROM THE BYTES of the lists (scanner model + parser model + storage indexes + engine), with RetrievalOK discharged by C11 and DomainsWF/TextDeterminesRule by the parser model; i1.chain checks that chain against the real RuleStorage+NetworkEngine.",
+    "C02": "Composition (Props/C02Compose): c02_basic discharges BasicRespectsTexts for the modelled GetDNSBasicRule (C06/C07), c02_storage states C02 from list bytes; i1.dnschain runs the chain against the real DNSEngine.",
+    "C03": "Composition (Props/C03Full): c03_full for the pattern model used as Ext.pat, c03_models_agree (the two independent models of preparePattern for /regex/ patterns coincide).",
+    "C04": "Composition (Props/C04Full): c04_full / c04_full_end_to_end replace the pattern oracle by the proved mask/regex model (modelPat) -- from the rule TEXT, Match = reference with the documented mask language; i2.match / i2.textmatch evaluate the whole of Match and NewNetworkRule in the model with only psl/netip tables from Go.",
+    "C05": "Composition (Props/C05Full): c05_mask_full discharges the compiled-expression hypothesis from C03's maskAst; c05_regex_text proves the MODELLED findRegexpShortcut (text heuristics + required literals of Go's parse tree) sound; i2.reshortcut compares it with the real function.",
+    "C10": "Composition (Props/C10Full): the shape theorem for the rewrite stored by the complete NewRule model.",
+    "C11": "Composition (Props/C11Compose): c11_real instantiates the parser parameter with the modelled rules.NewRule (TrimsFirst proved); i1.scan checks the scanner chain.",
+    "C12": "Composition (Props/C12Full): the complete NewRule model (TrimSpace of C11, NewHostRule of C18, loadDNSRewrite of C10, regex shortcut model) with c12_outcomes_full / c12_inert_full free of parameter assumptions; i2.newrule compares whole parsed records with rules.NewRule.",
+    "C15": "Composition (Props/C15Compose): CosDomainsWF discharged from the cosmetic parser model, c15_storage from list bytes, i1.coschain against the real engine.",
+    "C18": "Composition (Props/C18Full): NewRule's dispatch for hosts lines with the modelled IsDomainName (no Go table).",
+}
+
 NA_REASON = "check under construction in this round (model/spec/theorems and correspondence ops being built; see DESIGN.md section 4); not claimed yet"
 
 
@@ -134,7 +150,7 @@ def main():
                 "evidence_file": "/verif/evidence/%s.json" % pid,
                 "replay_cmd_template": "bin/vcheck --replay {path}",
                 "engine": "lean-model+go-harness",
-                "level_claimed": {"category": c[1], "text": c[2], "design_ref": "DESIGN.md section 4, " + pid},
+                "level_claimed": {"category": c[1], "text": c[2] + (" " + EXTRA[pid] if pid in EXTRA else ""), "design_ref": "DESIGN.md section 4, " + pid},
                 "level_note": c[4],
                 "technique": c[3],
             })
